@@ -38,7 +38,8 @@ inline std::vector<LD> vegas_importance(std::vector<LD> const& d, LD alpha, bool
     return imp;
 }
 
-// smallest non-zero smoothed share r (to detect underflow-prone inputs in the type under test)
+// smallest non-zero smoothed value or share r (to detect underflow-prone inputs in the type under test: a datum of denorm_min
+// among normal data is smoothed to (0 + denorm_min + 0)/3 = 0 in T, whereas the reference keeps it)
 inline LD vegas_min_share(std::vector<LD> const& d)
 {
     std::size_t n = d.size();
@@ -53,7 +54,7 @@ inline LD vegas_min_share(std::vector<LD> const& d)
     LD norm = 0, m = 1;
     for (LD x : s) norm += x;
     if (!(norm > 0)) return 1;
-    for (LD x : s) if (x > 0) m = std::fmin(m, x / norm);
+    for (LD x : s) if (x > 0) m = std::fmin(m, std::fmin(x, x / norm));
     return m;
 }
 
